@@ -11,6 +11,10 @@
 //!   After every job the scratch root is walked and everything created, changed or removed outside the
 //!   toolchain cache, the unpacked toolchains and the builds directory is reported.
 //!
+//! * leg `fs2`: like `fs`, with a toolchain cache that has room for a given number of archives, a second
+//!   toolchain, and jobs whose stand-in compile stays "running" (it waits to be released) while other requests
+//!   are handled; the stand-in compile can also replace a directory of its root by a symlink.
+//!
 //! The case / observation syntax is the `Sx` format of the verification framework (numbers, `#hex` byte
 //! strings, identifiers, parenthesised lists); a small parser is included so that the repository stays
 //! self-contained.
@@ -435,6 +439,18 @@ fn toolchain_blob() -> Vec<u8> {
     enc.finish().unwrap()
 }
 
+/// a second toolchain (leg fs2): same layout, other content, other digest
+fn toolchain_blob2() -> Vec<u8> {
+    let tar = raw_tar(&[
+        Sx::L(vec![Sx::sym("dir"), Sx::sym("tc_bin")]),
+        Sx::L(vec![Sx::sym("file"), Sx::sym("tc_bin/tool"), Sx::B(b"TOOL2".to_vec())]),
+        Sx::L(vec![Sx::sym("dir"), Sx::sym("tc_lib")]),
+    ]);
+    let mut enc = flate2::write::GzEncoder::new(Vec::new(), flate2::Compression::fast());
+    enc.write_all(&tar).unwrap();
+    enc.finish().unwrap()
+}
+
 /// every entry below `root` (not following symlinks): relative path -> (kind, content of small files)
 fn walk(root: &Path) -> BTreeMap<Vec<u8>, (char, Vec<u8>)> {
     fn go(root: &Path, dir: &Path, out: &mut BTreeMap<Vec<u8>, (char, Vec<u8>)>) {
@@ -509,7 +525,8 @@ fn through_link(root: &Path, p: &Path) -> bool {
 
 /// `sccache-dist __verif_paths fakejob <target> <cwd> <exe> <args...>`: what the fake bwrap script runs
 /// in place of the sandboxed compiler.  args: `snap:<hex file>`, `w:<hex path>:<hex content>`,
-/// `l:<hex path>:<hex link target>`; paths are interpreted inside the job's root (`..` cannot leave it).
+/// `l:<hex path>:<hex link target>`, `r:<hex path>:<hex link target>`, `hold:<hex file>`; paths are interpreted
+/// inside the job's root (`..` cannot leave it).
 fn fakejob(args: &[String]) -> i32 {
     let target = Path::new(&args[0]);
     let cwd = Path::new(&args[1]);
@@ -567,6 +584,41 @@ fn fakejob(args: &[String]) -> i32 {
                 }
                 let _ = std::os::unix::fs::symlink(path_of(&unhex(parts[2])), &p);
             }
+            // `r:<hex path>:<hex link target>`: whatever is at the path (a directory with all its content, a file,
+            // a link) is removed and a symlink put in its place - `rm -rf work; ln -s /etc work`
+            "r" => {
+                let p = inside(&unhex(parts[1]));
+                if p == target || through_link(target, &p) {
+                    continue;
+                }
+                match std::fs::symlink_metadata(&p) {
+                    Ok(m) if m.file_type().is_dir() => {
+                        let _ = std::fs::remove_dir_all(&p);
+                    }
+                    Ok(_) => {
+                        let _ = std::fs::remove_file(&p);
+                    }
+                    Err(_) => {}
+                }
+                if let Some(d) = p.parent() {
+                    let _ = std::fs::create_dir_all(d);
+                }
+                let _ = std::os::unix::fs::symlink(path_of(&unhex(parts[2])), &p);
+            }
+            // `hold:<hex file>`: tell the driver that the job got this far (`<file>.at`) and wait until it creates
+            // `<file>` (a compile that is still running while other requests arrive)
+            "hold" => {
+                let file = unhex(parts[1]);
+                let mut at = file.clone();
+                at.extend_from_slice(b".at");
+                let _ = std::fs::write(path_of(&at), b"");
+                for _ in 0..15000 {
+                    if path_of(&file).exists() {
+                        break;
+                    }
+                    std::thread::sleep(std::time::Duration::from_millis(2));
+                }
+            }
             _ => {}
         }
     }
@@ -580,14 +632,29 @@ const ABS_ESCAPE: &str = "/dev/shm/vp-c19-abs-escape";
 struct World {
     top: PathBuf,
     root: PathBuf,
-    server: crate::Server,
+    server: std::sync::Arc<crate::Server>,
     blob: Vec<u8>,
+    blob2: (String, Vec<u8>),
     baseline: BTreeMap<Vec<u8>, (char, Vec<u8>)>,
     njob: u64,
+    held: Vec<Held>,
+}
+
+/// a job whose stand-in compile is waiting to be released (leg fs2)
+struct Held {
+    key: u128,
+    release: PathBuf,
+    snapfile: PathBuf,
+    thread: std::thread::JoinHandle<(&'static str, Vec<Sx>)>,
 }
 
 impl World {
     fn new() -> Result<World, String> {
+        World::with_cache_for(0)
+    }
+
+    /// `archives` = how many toolchain archives the TcCache has room for (0 = no practical limit)
+    fn with_cache_for(archives: u64) -> Result<World, String> {
         let td = tempfile::Builder::new()
             .prefix("vp-c19-")
             .tempdir_in("/dev/shm")
@@ -624,17 +691,26 @@ impl World {
         .map_err(|e| e.to_string())?;
         std::fs::set_permissions(&bwrap, std::fs::Permissions::from_mode(0o755)).map_err(|e| e.to_string())?;
         let builder = build::OverlayBuilder::new(bwrap, root.join("srv/build")).map_err(|e| format!("{:#}", e))?;
-        let server = crate::Server::new(Box::new(builder), &root.join("srv/cache"), 1 << 30)
-            .map_err(|e| format!("{:#}", e))?;
         let blob = toolchain_blob();
+        let blob2 = toolchain_blob2();
+        let id2 = sccache::util::Digest::reader_sync(&blob2[..]).map_err(|e| e.to_string())?;
+        let cache_size = if archives == 0 {
+            1 << 30
+        } else {
+            archives * blob.len().max(blob2.len()) as u64
+        };
+        let server = crate::Server::new(Box::new(builder), &root.join("srv/cache"), cache_size)
+            .map_err(|e| format!("{:#}", e))?;
         let baseline = walk(&root);
         Ok(World {
             top,
             root,
-            server,
+            server: std::sync::Arc::new(server),
             blob,
+            blob2: (id2, blob2),
             baseline,
             njob: 0,
+            held: vec![],
         })
     }
 
@@ -673,22 +749,24 @@ impl World {
         out
     }
 
-    /// `(job #id genuine do_run #cwd (#output ...) (input member ...) (write ...))`
-    fn job(&mut self, op: &Sx) -> Sx {
+    /// assign + submit of `(job #id genuine do_run #cwd (#output ...) (input member ...) (write ...))`, and the
+    /// run_job request it leads to.  With `hold`, the stand-in compile waits for that file after its writes.
+    fn begin(&mut self, op: &Sx, hold: Option<&Path>) -> Result<Begun, Sx> {
         self.njob += 1;
         let job_id = JobId(self.njob);
         // arg 2 ("the uploaded archive hashes to this id") is information for the model only
         let do_run = op.arg(3).num() != 0;
         let id = match String::from_utf8(op.arg(1).bytes().to_vec()) {
             Ok(s) => s,
-            Err(_) => return Sx::L(vec![Sx::sym("not_utf8")]),
+            Err(_) => return Err(Sx::L(vec![Sx::sym("not_utf8")])),
         };
         let cwd = String::from_utf8(op.arg(4).bytes().to_vec());
         let outs = strings(op.arg(5));
         let (cwd, outs) = match (cwd, outs) {
             (Ok(c), Some(o)) => (c, o),
-            _ => return Sx::L(vec![Sx::sym("not_utf8")]),
+            _ => return Err(Sx::L(vec![Sx::sym("not_utf8")])),
         };
+        let upload: &[u8] = if id == self.blob2.0 { &self.blob2.1 } else { &self.blob };
         let tc = Toolchain { archive_id: id };
         let requester = NullRequester;
 
@@ -700,7 +778,7 @@ impl World {
         };
         // submit
         let submit = if need {
-            let rdr = ToolchainReader::verif_new(Box::new(&self.blob[..]));
+            let rdr = ToolchainReader::verif_new(Box::new(upload));
             match catch(|| self.server.handle_submit_toolchain(&requester, job_id, rdr)) {
                 Ok(Ok(SubmitToolchainResult::Success)) => "success",
                 Ok(Ok(SubmitToolchainResult::JobNotFound)) => "job_not_found",
@@ -711,15 +789,20 @@ impl World {
         } else {
             "skipped"
         };
-        // run
+        // the run_job request
         let snapfile = self.root.join("log").join(format!("snap-{}", self.njob));
-        let mut run = "skipped";
-        let mut outputs = vec![];
-        if do_run {
+        let request = if do_run {
             let mut arguments = vec![format!("snap:{}", hex(snapfile.as_os_str().as_bytes()))];
             for w in op.arg(7).list() {
-                let k = if w.tag() == "symlink" { "l" } else { "w" };
+                let k = match w.tag().as_str() {
+                    "symlink" => "l",
+                    "replace" => "r",
+                    _ => "w",
+                };
                 arguments.push(format!("{}:{}:{}", k, hex(w.arg(1).bytes()), hex(w.arg(2).bytes())));
+            }
+            if let Some(h) = hold {
+                arguments.push(format!("hold:{}", hex(h.as_os_str().as_bytes())));
             }
             let command = CompileCommand {
                 executable: "job".to_owned(),
@@ -727,27 +810,59 @@ impl World {
                 env_vars: vec![],
                 cwd,
             };
-            let inputs = raw_tar(op.arg(6).list());
-            let rdr = InputsReader::verif_new(Box::new(std::io::Cursor::new(inputs)));
-            run = match catch(|| self.server.handle_run_job(&requester, job_id, command, outs, rdr)) {
-                Ok(Ok(RunJobResult::JobNotFound)) => "job_not_found",
-                Ok(Ok(RunJobResult::Complete(c))) => {
-                    for (p, d) in c.outputs {
-                        outputs.push(Sx::L(vec![
-                            Sx::B(p.into_bytes()),
-                            Sx::B(d.verif_bytes().unwrap_or_else(|_| b"<unreadable>".to_vec())),
-                        ]));
-                    }
-                    "complete"
+            Some((command, outs, raw_tar(op.arg(6).list())))
+        } else {
+            None
+        };
+        Ok(Begun {
+            job_id,
+            assign,
+            submit,
+            request,
+            snapfile,
+        })
+    }
+
+    /// handle_run_job
+    fn exec(
+        server: &crate::Server,
+        job_id: JobId,
+        request: (CompileCommand, Vec<String>, Vec<u8>),
+    ) -> (&'static str, Vec<Sx>) {
+        let (command, outs, inputs) = request;
+        let rdr = InputsReader::verif_new(Box::new(std::io::Cursor::new(inputs)));
+        let mut outputs = vec![];
+        let run = match catch(|| server.handle_run_job(&NullRequester, job_id, command, outs, rdr)) {
+            Ok(Ok(RunJobResult::JobNotFound)) => "job_not_found",
+            Ok(Ok(RunJobResult::Complete(c))) => {
+                for (p, d) in c.outputs {
+                    outputs.push(Sx::L(vec![
+                        Sx::B(p.into_bytes()),
+                        Sx::B(d.verif_bytes().unwrap_or_else(|_| b"<unreadable>".to_vec())),
+                    ]));
                 }
-                Ok(Err(_)) => "err",
-                Err(()) => "panic",
-            };
-        }
+                "complete"
+            }
+            Ok(Err(_)) => "err",
+            Err(()) => "panic",
+        };
+        (run, outputs)
+    }
+
+    /// the observation of one step
+    fn observe(
+        &self,
+        head: &str,
+        assign: &str,
+        submit: &str,
+        run: &str,
+        outputs: Vec<Sx>,
+        snapfile: Option<&Path>,
+    ) -> Sx {
         // what the job saw when it started
         let mut build = Sx::L(vec![]);
         let mut snap = vec![];
-        if let Ok(s) = std::fs::read_to_string(&snapfile) {
+        if let Some(Ok(s)) = snapfile.map(std::fs::read_to_string) {
             for line in s.lines() {
                 let mut it = line.splitn(2, ' ');
                 let k = it.next().unwrap_or("");
@@ -759,9 +874,9 @@ impl World {
                     snap.push(Sx::L(vec![Sx::sym(k), Sx::B(v)]));
                 }
             }
-            let _ = std::fs::remove_file(&snapfile);
+            let _ = std::fs::remove_file(snapfile.unwrap());
         }
-        // leftovers of the job below builds/
+        // what there is below builds/
         let left: Vec<Sx> = walk(&self.root.join("srv/build/builds"))
             .into_keys()
             .map(Sx::B)
@@ -781,7 +896,7 @@ impl World {
         let toolchains = listing("srv/build/toolchains");
         let cache = listing("srv/cache/tc");
         Sx::L(vec![
-            Sx::sym("job"),
+            Sx::sym(head),
             Sx::L(vec![Sx::sym("assign"), Sx::sym(assign)]),
             Sx::L(vec![Sx::sym("submit"), Sx::sym(submit)]),
             Sx::L(vec![Sx::sym("run"), Sx::sym(run)]),
@@ -794,6 +909,99 @@ impl World {
             Sx::L(vec![Sx::sym("escaped"), Sx::L(self.escapes())]),
         ])
     }
+
+    /// `(job ...)`: assign, submit, run, one after the other
+    fn job(&mut self, op: &Sx) -> Sx {
+        let b = match self.begin(op, None) {
+            Ok(b) => b,
+            Err(e) => return e,
+        };
+        let (run, outputs) = match b.request {
+            Some(r) => World::exec(&self.server, b.job_id, r),
+            None => ("skipped", vec![]),
+        };
+        self.observe("job", b.assign, b.submit, run, outputs, Some(&b.snapfile))
+    }
+
+    /// `(start key (job ...))`: assign and submit, then handle_run_job on a thread of its own; returns when the
+    /// stand-in compile has done its writes and waits (run = `running`), or when the request ended without
+    /// getting that far
+    fn start(&mut self, key: u128, op: &Sx) -> Sx {
+        let release = self.root.join("log").join(format!("hold-{}", self.njob + 1));
+        let b = match self.begin(op, Some(&release)) {
+            Ok(b) => b,
+            Err(e) => return e,
+        };
+        let request = match b.request {
+            Some(r) => r,
+            None => return self.observe("start", b.assign, b.submit, "skipped", vec![], None),
+        };
+        let server = self.server.clone();
+        let job_id = b.job_id;
+        let thread = std::thread::spawn(move || World::exec(&server, job_id, request));
+        let mut at = release.clone().into_os_string();
+        at.push(".at");
+        for _ in 0..15000 {
+            if Path::new(&at).exists() || thread.is_finished() {
+                break;
+            }
+            std::thread::sleep(std::time::Duration::from_millis(2));
+        }
+        if Path::new(&at).exists() {
+            let _ = std::fs::remove_file(&at);
+            let obs = self.observe("start", b.assign, b.submit, "running", vec![], Some(&b.snapfile));
+            self.held.push(Held {
+                key,
+                release,
+                snapfile: b.snapfile,
+                thread,
+            });
+            obs
+        } else {
+            let (run, outputs) = thread.join().unwrap_or(("panic", vec![]));
+            self.observe("start", b.assign, b.submit, run, outputs, Some(&b.snapfile))
+        }
+    }
+
+    /// `(release key)`: let that compile finish and wait for its run_job result
+    fn release(&mut self, key: u128) -> Sx {
+        let i = match self.held.iter().position(|h| h.key == key) {
+            Some(i) => i,
+            None => return self.observe("release", "skipped", "skipped", "not_running", vec![], None),
+        };
+        let h = self.held.remove(i);
+        let _ = std::fs::write(&h.release, b"");
+        let (run, outputs) = h.thread.join().unwrap_or(("panic", vec![]));
+        let _ = std::fs::remove_file(&h.release);
+        let _ = std::fs::remove_file(&h.snapfile);
+        self.observe("release", "skipped", "skipped", run, outputs, None)
+    }
+
+    /// case of leg fs2 = `(archives (op ...))`, op = `(job ...)` | `(start key (job ...))` | `(release key)`
+    fn script(&mut self, ops: &[Sx]) -> Sx {
+        let mut out = vec![];
+        for op in ops {
+            out.push(match op.tag().as_str() {
+                "start" => self.start(op.arg(1).num(), op.arg(2)),
+                "release" => self.release(op.arg(1).num()),
+                _ => self.job(op),
+            });
+        }
+        // nothing stays behind
+        while let Some(h) = self.held.pop() {
+            let _ = std::fs::write(&h.release, b"");
+            let _ = h.thread.join();
+        }
+        Sx::L(out)
+    }
+}
+
+struct Begun {
+    job_id: JobId,
+    assign: &'static str,
+    submit: &'static str,
+    request: Option<(CompileCommand, Vec<String>, Vec<u8>)>,
+    snapfile: PathBuf,
 }
 
 impl Drop for World {
@@ -863,6 +1071,16 @@ fn root_writes() -> Vec<Sx> {
         .collect()
 }
 
+/// leg fs2: like fs, with a toolchain cache of a given capacity, a second toolchain and jobs that are still
+/// running while others are handled
+fn fs2_case(case: &Sx) -> Sx {
+    let mut w = match World::with_cache_for(case.arg(0).num() as u64) {
+        Ok(w) => w,
+        Err(e) => return Sx::L(vec![Sx::sym("env_unsupported"), Sx::B(e.into_bytes())]),
+    };
+    w.script(case.arg(1).list())
+}
+
 // ------------------------------------------------------------------ entry
 
 pub fn main(args: &[String]) -> i32 {
@@ -871,10 +1089,14 @@ pub fn main(args: &[String]) -> i32 {
         return fakejob(&args[1..]);
     }
     std::panic::set_hook(Box::new(|_| {}));
-    let contained = if leg == "probe" || leg == "fs" { contain() } else { Ok(()) };
+    let contained = if leg == "probe" || leg == "fs" || leg == "fs2" { contain() } else { Ok(()) };
     if leg == "digest" {
         // the id of the toolchain archive used by the fs leg, as the real code computes it
         println!("{}", sccache::util::Digest::reader_sync(&toolchain_blob()[..]).unwrap());
+        return 0;
+    }
+    if leg == "digest2" {
+        println!("{}", sccache::util::Digest::reader_sync(&toolchain_blob2()[..]).unwrap());
         return 0;
     }
     if leg == "probe" {
@@ -902,6 +1124,10 @@ pub fn main(args: &[String]) -> i32 {
                 "calc" => calc(&x),
                 "fs" => match &contained {
                     Ok(()) => fs_case(&x),
+                    Err(e) => Sx::L(vec![Sx::sym("env_unsupported"), Sx::B(e.clone().into_bytes())]),
+                },
+                "fs2" => match &contained {
+                    Ok(()) => fs2_case(&x),
                     Err(e) => Sx::L(vec![Sx::sym("env_unsupported"), Sx::B(e.clone().into_bytes())]),
                 },
                 _ => Sx::L(vec![Sx::sym("unknown_leg")]),
